@@ -546,8 +546,12 @@ def _dotted(e):
 
 
 def touches_protected(path):
-    """Does the access path go through a protected attribute (pose, fixed, id, estimate, information, ...)?"""
-    return any(s[1:] in PROTECTED_ATTRS for s in path[1:] if s.startswith("."))
+    """Is the written location a protected attribute itself or an element of the array it holds
+    (x.pose, x.pose[], x.information[][]) -- not some other object merely reached through one (x.pose._cache)?"""
+    sels = list(path[1:])
+    while sels and sels[-1] == "[]":
+        sels.pop()
+    return bool(sels) and sels[-1].startswith(".") and sels[-1][1:] in PROTECTED_ATTRS
 
 
 def last_attr(path):
